@@ -86,9 +86,15 @@ func Load(repo string, patterns []string, preludeDir string) (*Engine, error) {
 					depErr = err
 					return
 				}
+				var keep []*UnitSpec
 				for _, u := range cf.Units {
 					u.External = true
+					// a contract stated by a requested package for the same callee takes precedence
+					if _, exists := eng.Contracts[qualifyUnitName(u.Name, cf.Pkg)]; !exists {
+						keep = append(keep, u)
+					}
 				}
+				cf.Units = keep
 				eng.addContracts(cf)
 			}
 		}
